@@ -1,6 +1,35 @@
-From Coq Require Import Extraction ExtrOcamlBasic List NArith String.
+(* Extraction for the C25 / C26 model drivers.  The report rows of Spec/LockSpec.v are evaluated
+   here (vm_compute) and exported with their names as character-code lists, so that Coq's `string`
+   type does not shadow OCaml's in the driver; acyclic_check is extracted as a function and re-run
+   by the driver on the evaluated edge lists. *)
+From Coq Require Import Extraction ExtrOcamlBasic List NArith String Ascii.
+Import ListNotations.
 From BioVerif Require Import Lib.Conv Model.LockSem Gen.LockModel Spec.LockSpec.
+
+Fixpoint codes (s : string) : list N :=
+  match s with EmptyString => [] | String a r => N_of_ascii a :: codes r end.
+
+Definition x_good_edges : list (N * N) := Eval vm_compute in good_edges.
+Definition x_all_edges : list (N * N) := Eval vm_compute in all_edges.
+Definition x_edge_rows : list (row_verdict * list (list N)) :=
+  Eval vm_compute in map (fun r => (fst r, [codes (fst (fst (snd r))); codes (snd (fst (snd r))); codes (snd (snd r))])) edge_rows.
+Definition x_leak_rows : list (row_verdict * list (list N)) :=
+  Eval vm_compute in map (fun r => (fst r, [codes (fst (snd r)); codes (snd (snd r))])) leak_rows.
+Definition x_rdv_rows : list (row_verdict * list (list N)) :=
+  Eval vm_compute in map (fun r => (fst r, [codes (fst (snd r)); codes (snd (snd r))])) rdv_rows.
+Definition x_acc_rows : list (row_verdict * list (list N) * bool) :=
+  Eval vm_compute in map (fun r => (fst r, [codes (fst (fst (snd r))); codes (snd (fst (snd r)))], snd (snd r))) acc_rows.
+Definition x_unclassified : list (list N) := Eval vm_compute in map codes unclassified_fields.
+Definition x_dyn_rows : list (list (list N)) := Eval vm_compute in map (fun d => [codes (fst d); codes (snd d)]) dyn_rows.
+Definition x_good_cycle : option (list (list N)) :=
+  Eval vm_compute in match good_cycle with Some w => Some (map codes w) | None => None end.
+Definition x_all_cycle : option (list (list N)) :=
+  Eval vm_compute in match all_cycle with Some w => Some (map codes w) | None => None end.
+Definition x_lock_names : list (N * list N) := Eval vm_compute in map (fun p => (fst p, codes (snd p))) lock_names.
+Definition x_counts : list N :=
+  Eval vm_compute in [N.of_nat (List.length lock_names); N.of_nat (List.length lock_edges); N.of_nat (List.length accesses);
+                      N.of_nat (List.length field_names); analysed_functions; N.of_nat (List.length guarded_fields)].
+
 Extraction Language OCaml.
-Extraction "c25_model.ml" conv_anchor acyclic_check good_edges all_edges good_cycle all_cycle
-  edge_rows leak_rows rdv_rows acc_rows unclassified_fields dyn_rows
-  lock_names field_names lock_edges accesses analysed_functions guarded_fields.
+Extraction "c25_model.ml" conv_anchor acyclic_check is_cycle x_good_edges x_all_edges x_edge_rows x_leak_rows
+  x_rdv_rows x_acc_rows x_unclassified x_dyn_rows x_good_cycle x_all_cycle x_lock_names x_counts.
